@@ -64,9 +64,16 @@ def run_instance(rt, boxes, hitsv, qn, a, b, stride, phase):
         except vlib.CallTimeout:
             bad.append(("query.terminates", None, "no answer within 5 s", list(q), prior[-300:-1]))
             break
+        except Exception as ex:  # pylint: disable=broad-except
+            bad.append(("query.raises", None, type(ex).__name__ + ": " + str(ex)[:60], list(q), prior[-300:-1]))
+            break
         nq += 1
         want = {i + 1 for i in range(n) if (m >> i) & 1}
-        res = {back.get(g, -1) for g in got}            # back to positions; -1: an identifier nobody supplied
+        try:
+            res = {back.get(g, -1) for g in got}        # back to positions; -1: an identifier nobody supplied
+        except TypeError:
+            bad.append(("query.raises", None, "result is not a collection of identifiers: %r" % (got,), list(q), prior[-300:-1]))
+            break
         try:
             got.clear()                  # the result belongs to the caller: emptying it must not change what the index answers later
         except Exception:  # pylint: disable=broad-except
